@@ -131,114 +131,134 @@ func init() {
 			m3.VerifSetSeqID(rep, seq)
 			st := m3.VerifStateOf(rep)
 			tr.Emit(M{"e": "cfg", "x": ci + 1, "compact": compact, "max": maxPacket, "free": int(st.FreeBytes), "overhead": int(st.Overhead), "seq": int(seq), "ncommon": ncommon})
-			type handle struct {
-				kind string
-				h    interface{}
-				bks  []tally.CachedHistogramBucket
-			}
-			var hs []handle
-			for si, sh := range shapes {
-				name := strings.Repeat("n", sh.nameLen)
-				if sh.nameLen > 4 {
-					name = fmt.Sprintf("%02d", si) + name[2:]
+			var nrep int
+			finished := make(chan struct{})
+			go func() {
+				defer close(finished)
+				type handle struct {
+					kind string
+					h    interface{}
+					bks  []tally.CachedHistogramBucket
 				}
-				tags := map[string]string{}
-				for t := 0; t < sh.ntags; t++ {
-					tags[fmt.Sprintf("k%d%s", t, strings.Repeat("k", sh.tagLen))] = strings.Repeat("v", sh.tagLen)
-				}
-				switch sh.kind {
-				case "counter":
-					hs = append(hs, handle{kind: "counter", h: rep.AllocateCounter(name, tags)})
-				case "gauge":
-					hs = append(hs, handle{kind: "gauge", h: rep.AllocateGauge(name, tags)})
-				case "timer":
-					hs = append(hs, handle{kind: "timer", h: rep.AllocateTimer(name, tags)})
-				case "histv":
-					bs := tally.ValueBuckets{-1e9, 0, 0.000001, 1e15}
-					h := rep.AllocateHistogram(name, tags, bs)
-					var bks []tally.CachedHistogramBucket
-					for _, p := range tally.BucketPairs(bs) {
-						bks = append(bks, h.ValueBucket(p.LowerBoundValue(), p.UpperBoundValue()))
+				var hs []handle
+				for si, sh := range shapes {
+					name := strings.Repeat("n", sh.nameLen)
+					if sh.nameLen > 4 {
+						name = fmt.Sprintf("%02d", si) + name[2:]
 					}
-					hs = append(hs, handle{kind: "bucket", bks: bks})
-				case "histd":
-					bs := tally.DurationBuckets{time.Nanosecond, 1500 * time.Millisecond, 277*time.Hour + 46*time.Minute + 39*time.Second + 999999999}
-					h := rep.AllocateHistogram(name, tags, bs)
-					var bks []tally.CachedHistogramBucket
-					for _, p := range tally.BucketPairs(bs) {
-						bks = append(bks, h.DurationBucket(p.LowerBoundDuration(), p.UpperBoundDuration()))
+					tags := map[string]string{}
+					for t := 0; t < sh.ntags; t++ {
+						tags[fmt.Sprintf("k%d%s", t, strings.Repeat("k", sh.tagLen))] = strings.Repeat("v", sh.tagLen)
 					}
-					hs = append(hs, handle{kind: "bucket", bks: bks})
+					switch sh.kind {
+					case "counter":
+						hs = append(hs, handle{kind: "counter", h: rep.AllocateCounter(name, tags)})
+					case "gauge":
+						hs = append(hs, handle{kind: "gauge", h: rep.AllocateGauge(name, tags)})
+					case "timer":
+						hs = append(hs, handle{kind: "timer", h: rep.AllocateTimer(name, tags)})
+					case "histv":
+						bs := tally.ValueBuckets{-1e9, 0, 0.000001, 1e15}
+						h := rep.AllocateHistogram(name, tags, bs)
+						var bks []tally.CachedHistogramBucket
+						for _, p := range tally.BucketPairs(bs) {
+							bks = append(bks, h.ValueBucket(p.LowerBoundValue(), p.UpperBoundValue()))
+						}
+						hs = append(hs, handle{kind: "bucket", bks: bks})
+					case "histd":
+						bs := tally.DurationBuckets{time.Nanosecond, 1500 * time.Millisecond, 277*time.Hour + 46*time.Minute + 39*time.Second + 999999999}
+						h := rep.AllocateHistogram(name, tags, bs)
+						var bks []tally.CachedHistogramBucket
+						for _, p := range tally.BucketPairs(bs) {
+							bks = append(bks, h.DurationBucket(p.LowerBoundDuration(), p.UpperBoundDuration()))
+						}
+						hs = append(hs, handle{kind: "bucket", bks: bks})
+					}
 				}
-			}
-			// concurrent allocation: the size measurement of Allocate* goes through one shared counting transport
-			if ci%3 == 1 {
-				const G, per = 8, 60
-				extra := make([][]handle, G)
-				var wg sync.WaitGroup
-				start := make(chan struct{})
-				for g := 0; g < G; g++ {
-					g := g
-					wg.Add(1)
-					go func() {
-						defer wg.Done()
-						<-start
-						for i := 0; i < per; i++ {
-							name := fmt.Sprintf("c%d_%d_%s", g, i, strings.Repeat("x", (g*7+i*13)%90))
-							tags := map[string]string{}
-							for t := 0; t < (g+i)%4; t++ {
-								tags[fmt.Sprintf("t%d", t)] = strings.Repeat("v", 1+(i*3+t)%17)
+				// concurrent allocation: the size measurement of Allocate* goes through one shared counting transport
+				if ci%3 == 1 {
+					const G, per = 8, 60
+					extra := make([][]handle, G)
+					var wg sync.WaitGroup
+					start := make(chan struct{})
+					for g := 0; g < G; g++ {
+						g := g
+						wg.Add(1)
+						go func() {
+							defer wg.Done()
+							<-start
+							for i := 0; i < per; i++ {
+								name := fmt.Sprintf("c%d_%d_%s", g, i, strings.Repeat("x", (g*7+i*13)%90))
+								tags := map[string]string{}
+								for t := 0; t < (g+i)%4; t++ {
+									tags[fmt.Sprintf("t%d", t)] = strings.Repeat("v", 1+(i*3+t)%17)
+								}
+								switch (g + i) % 3 {
+								case 0:
+									extra[g] = append(extra[g], handle{kind: "counter", h: rep.AllocateCounter(name, tags)})
+								case 1:
+									extra[g] = append(extra[g], handle{kind: "gauge", h: rep.AllocateGauge(name, tags)})
+								default:
+									extra[g] = append(extra[g], handle{kind: "timer", h: rep.AllocateTimer(name, tags)})
+								}
 							}
-							switch (g + i) % 3 {
-							case 0:
-								extra[g] = append(extra[g], handle{kind: "counter", h: rep.AllocateCounter(name, tags)})
-							case 1:
-								extra[g] = append(extra[g], handle{kind: "gauge", h: rep.AllocateGauge(name, tags)})
-							default:
-								extra[g] = append(extra[g], handle{kind: "timer", h: rep.AllocateTimer(name, tags)})
+						}()
+					}
+					close(start)
+					wg.Wait()
+					for g := 0; g < G; g++ {
+						for _, h := range extra[g] {
+							switch h.kind {
+							case "counter":
+								h.h.(tally.CachedCount).ReportCount(math.MaxInt64)
+							case "gauge":
+								h.h.(tally.CachedGauge).ReportGauge(-math.MaxFloat64)
+							case "timer":
+								h.h.(tally.CachedTimer).ReportTimer(time.Duration(math.MinInt64))
 							}
 						}
-					}()
-				}
-				close(start)
-				wg.Wait()
-				for g := 0; g < G; g++ {
-					for _, h := range extra[g] {
-						switch h.kind {
-						case "counter":
-							h.h.(tally.CachedCount).ReportCount(math.MaxInt64)
-						case "gauge":
-							h.h.(tally.CachedGauge).ReportGauge(-math.MaxFloat64)
-						case "timer":
-							h.h.(tally.CachedTimer).ReportTimer(time.Duration(math.MinInt64))
-						}
 					}
 				}
-			}
-			nrep := 40 + rng.Intn(160)
-			if thorough && ci%40 == 39 {
-				nrep = 5000
-			}
-			ints := []int64{math.MaxInt64, math.MinInt64, 0, 1, -1, 1 << 62, math.MaxInt64 - 1}
-			floats := []float64{math.MaxFloat64, -math.MaxFloat64, 0, 1, math.NaN(), math.Inf(1)}
-			for i := 0; i < nrep; i++ {
-				h := hs[rng.Intn(len(hs))]
-				switch h.kind {
-				case "counter":
-					h.h.(tally.CachedCount).ReportCount(ints[rng.Intn(len(ints))])
-				case "gauge":
-					h.h.(tally.CachedGauge).ReportGauge(floats[rng.Intn(len(floats))])
-				case "timer":
-					h.h.(tally.CachedTimer).ReportTimer(time.Duration(ints[rng.Intn(len(ints))]))
-				case "bucket":
-					h.bks[rng.Intn(len(h.bks))].ReportSamples(ints[rng.Intn(len(ints))])
+				nrep = 40 + rng.Intn(160)
+				if thorough && ci%40 == 39 {
+					nrep = 5000
 				}
-				if rng.Intn(25) == 0 {
-					rep.Flush() // flushes at arbitrary positions
+				ints := []int64{math.MaxInt64, math.MinInt64, 0, 1, -1, 1 << 62, math.MaxInt64 - 1}
+				floats := []float64{math.MaxFloat64, -math.MaxFloat64, 0, 1, math.NaN(), math.Inf(1)}
+				for i := 0; i < nrep; i++ {
+					h := hs[rng.Intn(len(hs))]
+					switch h.kind {
+					case "counter":
+						h.h.(tally.CachedCount).ReportCount(ints[rng.Intn(len(ints))])
+					case "gauge":
+						h.h.(tally.CachedGauge).ReportGauge(floats[rng.Intn(len(floats))])
+					case "timer":
+						h.h.(tally.CachedTimer).ReportTimer(time.Duration(ints[rng.Intn(len(ints))]))
+					case "bucket":
+						h.bks[rng.Intn(len(h.bks))].ReportSamples(ints[rng.Intn(len(ints))])
+					}
+					if rng.Intn(25) == 0 {
+						rep.Flush() // flushes at arbitrary positions
+					}
+				}
+				rep.Close()
+			}()
+			if where := hangWatch(finished); where != "" {
+				// the reporter hangs (its goroutines and the caller have not moved for seconds): the run ends with the last complete case
+				tr.Close()
+				writeMeta(cm.out, M{"cases": ci, "events": tr.N, "evals": evals, "distinct": len(distinct), "samples": samples, "hung": true, "where": where})
+				return
+			}
+			nemit := 0
+			mu.Lock()
+			for _, o := range hooklog {
+				if o.point == "m3p_emit" {
+					nemit++
 				}
 			}
-			rep.Close()
-			time.Sleep(3 * time.Millisecond)
+			mu.Unlock()
+			// the datagrams the sender is known to have emitted (loopback delivery may lag on a busy machine)
+			waitDatagrams([]*sinkCollector{col}, nemit, time.Second)
 			dgs := col.take()
 			col.close()
 			tally.VerifSetHook(nil, nil)
